@@ -280,13 +280,22 @@ func (w *World) ErrorHook(s *Script) rux.HandlerFunc {
 	}
 }
 
+// BuildRequest is the request for (method, path) as both sides see it.  Query string and Accept header are functions
+// of method and path: the same raw query recurs with other paths, the accepted types differ from method to method - what
+// one request's getters hand out, and what its handlers do with that, is that request's own business.
+func BuildRequest(method, path string) *http.Request {
+	return &http.Request{Method: method, URL: &url.URL{Path: path, RawQuery: fmt.Sprintf("page=%d&token=abc", len(path)%2)},
+		Header: http.Header{"Accept": {fmt.Sprintf("text/x-%s-%d, application/json;q=0.8", strings.ToLower(method), len(path)%3)}}, Proto: "HTTP/1.1", ProtoMajor: 1, ProtoMinor: 1}
+}
+
 // NewRequest prepares the real-side state of a request.
 func (w *World) NewRequest(method, path string, faults ...Fault) *ReqState {
 	w.mu.Lock()
 	w.nreq++
 	id := fmt.Sprintf("q%d", w.nreq)
 	st := &ReqState{ID: id, Tr: &Trace{}, Rec: NewRec(faults...), world: w}
-	st.Req = &http.Request{Method: method, URL: &url.URL{Path: path}, Header: http.Header{"X-Req": {id}}, Proto: "HTTP/1.1", ProtoMajor: 1, ProtoMinor: 1}
+	st.Req = BuildRequest(method, path)
+	st.Req.Header.Set("X-Req", id)
 	if w.CancelEvery > 0 && w.nreq%w.CancelEvery == 0 {
 		// the client has gone away already: the request's context is cancelled.  A router has no business looking
 		// at that - the chain runs as it always does (handlers decide for themselves what to do about it)
